@@ -290,13 +290,16 @@ char const* coarse(T x)
     }
 }
 
-/// magnitude tag of a pair of arguments of an approximating binary function (finite non-zero
-/// arguments only): tiny if any |v| < epsilon, else huge if any |v| >= 2^63, else large if any
+/// magnitude tag of a pair of arguments of an approximating binary function (both finite and
+/// positive only): tiny if any |v| < epsilon, else huge if any |v| >= 2^63, else large if any
 /// |v| >= 1024, else moderate
 template <typename T>
 char const* pair_magnitude(T x, T y)
 {
     int const rx = region_id(x), ry = region_id(y);
+    // only in the principal quadrant (both arguments finite and positive); the other sign
+    // combinations are special-case territory and keep their coarse class
+    if (rx < 5 || ry < 5 || ((rx - 5) & 1) || ((ry - 5) & 1)) { return ""; }
     bool tiny = false, huge = false, large = false;
     for (int r : {rx, ry}) {
         if (r < 5) { continue; }
@@ -444,7 +447,9 @@ inline std::vector<u64> grid_mantissas(bool small)
 // got      result of the tetl path in type T
 // ref      libm's result in the same type T  (decides "NaN / +-inf exactly where C requires")
 // ref_hi   libm's result in the next wider type (double for float, long double for double):
-//          the value errors are measured against
+//          the value errors are measured against (the error against `ref` itself is used when
+//          it is smaller)
+// A result that is bit-identical to `ref` is accepted with error 0.
 // Error unit: relative error divided by epsilon(T) ("eps"), with the denominator floored at
 // the smallest normal number so that results in the subnormal range are judged absolutely.
 // The sign of a zero result is NOT compared (the statement only fixes NaN and infinities).
@@ -467,10 +472,20 @@ Verdict judge(T got, T ref, H ref_hi, double bound_eps, double& err_eps)
     H const tmin     = H(std::numeric_limits<T>::min());
     H const tol      = H(bound_eps) * eps;
     auto const habs  = [](H v) { return v < 0 ? -v : v; };
+    // distance to the wide reference or to libm's own same-type result, whichever is smaller
+    // ("within the bound of libm": where libm itself is far from the true value - seen with
+    // std::beta for large arguments - agreeing with libm is not a violation)
     auto const relerr = [&](H g) {
-        H const den = habs(ref_hi) > tmin ? habs(ref_hi) : tmin;
-        return double(habs(g - ref_hi) / den / eps);
+        H const den  = habs(ref_hi) > tmin ? habs(ref_hi) : tmin;
+        H const e_hi = habs(g - ref_hi) / den / eps;
+        if (ref != ref || std::isinf(ref)) { return double(e_hi); }
+        H const den2 = habs(H(ref)) > tmin ? habs(H(ref)) : tmin;
+        H const e_lo = habs(g - H(ref)) / den2 / eps;
+        return double(e_lo < e_hi ? e_lo : e_hi);
     };
+    // bit-identical to libm's result in the same type: within any tolerance "of libm" by
+    // definition (libm itself can be more than 1 eps away from the wide reference)
+    if (canon(got) == canon(ref)) { return Verdict::ok; }
     // a wide reference that disagrees with libm's same-type result about NaN/infinity (seen:
     // powl(-inf, -2^63) = inf where pow() = +0) cannot serve as the value to measure against
     if (!(ref != ref) && !std::isinf(ref) && (ref_hi != ref_hi || std::isinf(ref_hi))) { ref_hi = H(ref); }
